@@ -3,6 +3,7 @@ CONSTANTS
   MaxStr = 2
   MaxRunes = 2
   MaxPeek = 2
+  RuneKinds = {"p"}
   DecMode = "buffered"
   LineMode = "tracked"
 SPECIFICATION FairSpec
